@@ -160,7 +160,9 @@ func (n *minNode) Next() (bool, error) {
 						case float64:
 							res = res.SetFloat64(v)
 						default:
-							return nil
+							// a value that is not a number (e.g. null) does not take part,
+							// it must not discard what was found so far
+							return value
 						}
 						if value == nil || res.Cmp(value) < 0 {
 							return res
